@@ -115,6 +115,10 @@ def verify_function(I: Interp, q: str, prop: str) -> FuncResult:
             res.exits["raise" if o.kind == "raise" else "return"] += 1
         if res.paths == 0:
             res.status, res.reason = "error", "no path reaches an exit"
+        dead = I.stats.get("dead_calls") or []
+        if dead:
+            res.status, res.reason = "error", "vacuity: a call by contract had no feasible outcome (contradictory callee contract for this state): " + "; ".join(dead[:3])
+            I.stats["dead_calls"] = []
     except Unsupported as e:
         res.status, res.reason = "undecided", f"unsupported: {e}"
         del I.obligs[n0:]
